@@ -125,6 +125,13 @@ func basePrep() []Prep {
 	f(s3Dir+"/x/t/victim", 914)
 	d(s3Dir + "/t")
 	f(s3Dir+"/t/victim", 909)
+	d(s3Dir + "/wd-old")
+	f(s3Dir+"/wd-old/victim.txt", 919)
+	d(s3Dir + "/wd2")
+	d(s3Dir + "/wd2/sub")
+	f(s3Dir+"/wd2/sub/victim", 920)
+	f(s3Dir+"/wd.bak", 921)
+	f(s3Dir+"/wdspace.txt", 922)
 	d(cwdDir)
 	f(cwdDir+"/secret.txt", 910)
 	f(cwdDir+"/a", 911)
@@ -545,6 +552,8 @@ func genTitle(r *common.Rand, earlier []string) string {
 		}
 	case 6:
 		return wdDir
+	case 10:
+		return siblingTitle(r)
 	case 7, 8, 9:
 		if len(earlier) > 0 {
 			return noise(r, relName(r, earlier))
@@ -662,6 +671,8 @@ func genUnpack(r *common.Rand, title string, earlier *[]string, tag *int) Push {
 			e.Target = genTarget(r, dirRel, names)
 			if len(links) > 0 && r.Chance(1, 2) {
 				e.Target = common.Pick(r, links) + "/" + common.Pick(r, deepSubs) + "/victim"
+			} else if d := strings.Count(rel, "/"); d > 0 && r.Chance(1, 2) {
+				e.Target = ups(d) + common.Pick(r, []string{"victim", "a", "x/victim"})
 			}
 		default:
 			e.Kind = "o"
@@ -746,12 +757,29 @@ func genRandom(r *common.Rand) Case {
 	return c
 }
 
+// names next to the working directory that share its name as a prefix
+var prefixSiblings = []string{"wd-old/victim.txt", "wd-old/new.txt", "wd2/sub/victim", "wd2/sub/new.txt", "wd2/k", "wd.bak", "wdspace.txt", "wdx"}
+
+func siblingTitle(r *common.Rand) string {
+	sib := common.Pick(r, prefixSiblings)
+	switch r.Intn(4) {
+	case 0:
+		return "../" + sib
+	case 1:
+		return pickSeg(r) + "/../../" + sib
+	case 2:
+		return s3Dir + "/" + sib
+	default:
+		return wdDir + "/../" + sib
+	}
+}
+
 // attack templates (each a known way for lexical and physical resolution to part), perturbed
 func genTemplate(r *common.Rand) Case {
 	c := Case{Prep: basePrep(), Preserve: r.Chance(1, 4)}
 	t := common.Pick(r, []string{"t", "a", "k", "t/b"})
 	fin := common.Pick(r, []string{"victim", "a", "x/victim", "k"})
-	switch k := r.Intn(13); k {
+	switch k := r.Intn(17); k {
 	case 0: // raw link target goes through an earlier link and climbs
 		c.Origin = "tpl-raw-target"
 		d := 1 + r.Intn(3)
@@ -827,6 +855,35 @@ func genTemplate(r *common.Rand) Case {
 		default:
 			c.Pushes = []Push{{Kind: "U", Title: "u", Entries: []Entry{{Kind: "r", Name: "u/" + fin, Tag: 6}}},
 				{Kind: "U", Title: "v", Entries: []Entry{{Kind: "h", Name: "v/h", Target: "../u/victim"}, {Kind: "r", Name: "v/h", Tag: 7}}}}
+		}
+	case 12, 13: // titles that denote a sibling whose name starts with the working directory's name
+		c.Origin = "tpl-prefix-sibling"
+		title := siblingTitle(r)
+		if r.Bool() {
+			c.Pushes = []Push{{Kind: "B", Title: title, Tag: 11}}
+		} else {
+			c.Pushes = []Push{{Kind: "U", Title: title, Entries: []Entry{{Kind: "r", Name: title + "/" + fin, Tag: 12}, {Kind: "d", Name: title + "/k"}}}}
+		}
+	case 14, 15: // hard link n levels below the unpack directory with n ".." in its target: inside
+		// relative to the link's directory, outside relative to the unpack directory
+		c.Origin = "tpl-hardlink-nested-dotdot"
+		n := 1 + r.Intn(3)
+		dir := t + strings.Repeat("/s", n)
+		tgt := common.Pick(r, []string{"victim", "a", "x/victim", "victim"})
+		es := []Entry{{Kind: "d", Name: dir}}
+		if r.Chance(2, 3) {
+			// the file the link legitimately denotes
+			if strings.Contains(tgt, "/") {
+				es = append(es, Entry{Kind: "d", Name: t + "/" + path.Dir(tgt)})
+			}
+			es = append(es, Entry{Kind: "r", Name: t + "/" + tgt, Tag: 13})
+		}
+		es = append(es, Entry{Kind: "h", Name: dir + "/h", Target: ups(n) + tgt})
+		if r.Bool() {
+			es = append(es, Entry{Kind: "r", Name: dir + "/h", Tag: 14, Mode: 0o600})
+			c.Pushes = []Push{{Kind: "U", Title: t, Entries: es}}
+		} else {
+			c.Pushes = []Push{{Kind: "U", Title: t, Entries: es}, {Kind: "B", Title: dir + "/h", Tag: 15}}
 		}
 	case 9, 10, 11: // names two or more levels below a planted link whose raw target leaves the tree:
 		// the directory right below the link exists outside (decoy), so an Lstat of it succeeds
